@@ -115,6 +115,7 @@ package collections
 
 //@ func NewTTLMap
 //@   props C03 C13 C14
+//@   nopanic
 //@   modifies nothing
 //@   ensures fresh(result) && result != nil && result.OnExpire == nil && result.capacity == max(capacity, 0) && fresh(result.mutex)
 //@   ensures repOK(result) && result.vlen == 0 && (forall k string :: !result.vdom[k])
@@ -122,6 +123,7 @@ package collections
 
 //@ func (*TTLMap).toEpochSeconds
 //@   props C03 C13 C14
+//@   nopanic
 //@   readsclock
 //@   modifies nothing
 //@   ensures ttlSeconds <= 0 ==> result1 != nil
@@ -129,6 +131,7 @@ package collections
 
 //@ func (*TTLMap).get
 //@   props C03 C13 C14
+//@   nopanic
 //@   holds m.mutex
 //@   readsclock
 //@   requires m != nil && repOK(m)
@@ -138,6 +141,7 @@ package collections
 
 //@ func (*TTLMap).RemoveExpired
 //@   props C03 C09 C13 C14
+//@   nopanic
 //@   holds m.mutex
 //@   readsclock
 //@   requires m != nil && repOK(m) && iterations == 1
@@ -151,6 +155,7 @@ package collections
 
 //@ func (*TTLMap).RemoveLastUsed
 //@   props C03 C09 C13 C14
+//@   nopanic
 //@   holds m.mutex
 //@   requires m != nil && repOK(m) && iterations == 1
 //@   modifies mapof(m.elements), m.expiryTimes.qin, m.expiryTimes.qlen, m.expiryTimes.qtop, PQItem.index
@@ -163,6 +168,7 @@ package collections
 
 //@ func (*TTLMap).freeSpace
 //@   props C03 C13 C14
+//@   nopanic
 //@   holds m.mutex
 //@   readsclock
 //@   requires m != nil && repOK(m) && count == 1
@@ -173,6 +179,7 @@ package collections
 
 //@ func (*TTLMap).set
 //@   props C03 C13 C14
+//@   nopanic
 //@   holds m.mutex
 //@   readsclock
 //@   requires m != nil && repOK(m)
@@ -186,6 +193,7 @@ package collections
 
 //@ func (*TTLMap).lockNGet
 //@   props C03 C09 C13 C14
+//@   nopanic
 //@   readsclock
 //@   requires m != nil && m.OnExpire == nil
 //@   modifies nothing
@@ -194,6 +202,7 @@ package collections
 
 //@ func (*TTLMap).lockNDel
 //@   props C03 C09 C13 C14
+//@   nopanic
 //@   atomic m.mutex
 //@   readsclock
 //@   requires m != nil && m.OnExpire == nil && mapEl != nil
@@ -204,12 +213,14 @@ package collections
 
 //@ func (*TTLMap).Len
 //@   props C09 C14
+//@   nopanic
 //@   requires m != nil
 //@   modifies nothing
 //@   ensures result == m.vlen
 
 //@ func (*TTLMap).Get
 //@   props C03 C13 C14
+//@   nopanic
 //@   readsclock
 //@   requires m != nil && m.OnExpire == nil
 //@   modifies m.vdom[key], m.vlen, mapof(m.elements), m.expiryTimes.qin, m.expiryTimes.qlen, m.expiryTimes.qtop, PQItem.index
@@ -219,6 +230,7 @@ package collections
 
 //@ func (*TTLMap).Set
 //@   props C03 C13 C14
+//@   nopanic
 //@   atomic m.mutex
 //@   readsclock
 //@   requires m != nil
